@@ -501,10 +501,10 @@ class DocSync:
                     logger.more("Skipped keys: {}".format(", ".join(self.skipped_keys)))
 
 
-def _ignore_excluded(exclude, keep=None):
+def _ignore_excluded(exclude, keep=()):
     """Return an ignore function for copytree that skips all excluded file names.
 
-    The file at path ``keep`` is never skipped.
+    The files at the paths in ``keep`` are never skipped.
     """
 
     def ignore(path, names):
@@ -512,7 +512,7 @@ def _ignore_excluded(exclude, keep=None):
             name
             for name in names
             if any(re.match(p, name) for p in exclude)
-            and os.path.join(path, name) != keep
+            and os.path.join(path, name) not in keep
         }
 
     return ignore
@@ -912,7 +912,12 @@ def sync_projects(
             if exclude:
                 # Excluded files are not copied into new jobs either.
                 patterns = exclude if isinstance(exclude, list) else [exclude]
-                keep = src_job.fn(src_job.FN_STATE_POINT)
+                # A new job arrives with its state point and document (as when it
+                # is synchronized), whatever the pattern matches.
+                keep = (
+                    src_job.fn(src_job.FN_STATE_POINT),
+                    src_job.fn(src_job.FN_DOCUMENT),
+                )
 
                 def copytree(src, dst):
                     proxy.copytree(src, dst, ignore=_ignore_excluded(patterns, keep))
